@@ -130,6 +130,28 @@ def e2e(run, model):
         if rcv:
             mlines.append(rcv)
             mexp.append((ln, "recv", obs))
+    # timers: the client-side state must live exactly as long as the timed model says
+    tlines, texp = [], []
+    for ln, out in zip(lines, outs):
+        case = blk_e2e.Case(ln)
+        tl, obs = blk_e2e.timer_line(case, out)
+        if tl:
+            tlines.append(tl)
+            texp.append((ln, obs))
+    tout, _ = vlib.run_lines_robust(model, tlines, timeout=600)
+    nt = 0
+    for tl, (ln, obs), got in zip(tlines, texp, tout):
+        run.hist("e2e_timer", got.split("@")[0])
+        if (got == "alive") != (obs == "alive"):
+            nt += 1
+            if nt <= 2:
+                run.violation("the client-side transfer state was %s although the timed model says %s "
+                              "(state must be kept exactly while the transfer makes progress)" %
+                              ("deleted" if obs != "alive" else "kept", got),
+                              "case: %s\nmodel case: %s\nmodel: %s\nimpl : %s\n" % (ln, tl[:4000], got, obs),
+                              tag="timer%d" % nt)
+    run.cov["e2e_timer_cases"] = len(tlines)
+    run.cov["e2e_timer_disagreements"] = nt
     mout, _ = vlib.run_lines_robust(model, mlines, timeout=1500)
     ntie = 0
     for ml, (ln, kind, exp), got in zip(mlines, mexp, mout):
